@@ -129,3 +129,21 @@ Theorem C10_run_loop_conserves_waiter_timeouts : forall P s e now acts,
   run_ticks P s (tlog r) = Ok (st r) /\ ticklog r = map fst (tlog r).
 Proof. exact run_conserves_waiter_timeouts. Qed.
 Print Assumptions C10_run_loop_conserves_waiter_timeouts.
+
+(* ---- when does the time-out tick arrive?  (Proofs/RunnerFire.v; the same statements carry C06's delayed retries) ---- *)
+From WF Require Import Proofs.RunnerFire.
+
+(* a wait registered with timeout t at clock reading c has its time-out tick entered for time c + t *)
+Theorem C10_run_loop_waiter_timeout_is_scheduled_at_registration_plus_timeout : forall r s w t,
+  Runner.outcome r = ORunning ->
+  wakeups (do_command r (CSchedWaiterTimeout s w t)) = insert_wakeup (clock r + t, wseq r, TWaiterTimeout s w) (wakeups r) /\
+  tbuf (do_command r (CSchedWaiterTimeout s w t)) = tbuf r.
+Proof. exact waiter_timeout_is_scheduled. Qed.
+Print Assumptions C10_run_loop_waiter_timeout_is_scheduled_at_registration_plus_timeout.
+
+(* for every schedule: no time-out tick reaches the reducer before its time (so a step never gets a TimeoutError
+   before the timeout it asked for has elapsed) *)
+Theorem C10_run_loop_no_timeout_fires_early : forall P s e now acts,
+  Forall (fun f : Z * tick * Z => fst (fst f) <= snd f) (firelog (run_at P s e now acts)).
+Proof. exact run_wakeups_never_fire_early. Qed.
+Print Assumptions C10_run_loop_no_timeout_fires_early.
